@@ -19,7 +19,7 @@ def boolStr (b : Bool) : String := if b then "1" else "0"
 def encDen (d : List Pos) : String :=
   "[" ++ " ".intercalate (d.map fun p => (if p.2 then "~" else "") ++ toString p.1) ++ "]"
 
-def evalOp (op : String) (args : List Sexp) : Option String :=
+def evalCore (op : String) (args : List Sexp) : Option String :=
   match op, args with
   | "loc.shift", [l, i, n] => do
       pure (encLoc ((← decLoc? l).shift (← decInt? i) (← decInt? n)))
@@ -92,13 +92,5 @@ def evalOp (op : String) (args : List Sexp) : Option String :=
   | "k2.pushall", f :: ls => do
       pure (boolStr (Loc.pushAllAbs (← ls.mapM decLoc?) (← decBool? f)))
   | _, _ => none
-
-def evalLine (line : String) : String :=
-  match Sexp.parseLine line with
-  | .atom op :: args =>
-    match evalOp op args with
-    | some r => r
-    | none => "BAD-OP"
-  | _ => "BAD-OP"
 
 end Gts
